@@ -143,7 +143,7 @@ def run(ctx):
                 if sides is not None and sides[2] is None:
                     good = any(x[0] == "call" and x[1] == T2 and SEL.unref(x[2][0])[0] == "cs" and SEL.unref(x[2][0])[2] == kind for x in sides[:2]) and \
                         any(SEL.canon_place(x) == fld(fld(fld(deref(SEL.ELEM), 0), 0), 0) for x in sides[:2]) and \
-                        SEL.is_cast_of_elem(si["map"], ty_suffix=a["path"].split("::")[-1])
+                        SEL.is_cast_of_elem(si["map"], ty_suffix=a["path"].split("::")[-1], via_cast=SEL.calls_cast_only(F, gi))
             n_cl += 1
             ctx.check(good, "G2", "get_tag<%s>:predicate" % a["name"], "get_tag::<%s> compares the stored type with the number of `%s` and casts the match to %s" % (a["name"], kind, a["name"]),
                       gi.get("span", ""), how=how, why=str(how)[:300])
